@@ -78,3 +78,70 @@ func cmdScan(args []string) {
 	}
 	fmt.Printf("functions=%d clean=%d obligations=%d failed=%d\n", len(names), clean, tot, totFail)
 }
+
+// sweep: for every function of the given packages that has no contract, generate the safety
+// obligations of its own frame (index, slice, type assertion, division; callees inlined two blocks
+// deep at most) and print the ones that are not discharged.  A discovery aid: what it prints are
+// candidates to reproduce on the real code, nothing it prints or omits counts as evidence.
+func cmdSweep(args []string) {
+	fs := flag.NewFlagSet("sweep", flag.ExitOnError)
+	pkgs := fs.String("pkgs", "", "comma separated package paths")
+	kinds := fs.String("kinds", "idx,slice,assert,div", "obligation kinds")
+	fs.Parse(args)
+	eng, err := loadEngine("/repo", nil)
+	if err != nil {
+		fmt.Fprintln(os.Stderr, err)
+		os.Exit(2)
+	}
+	want := map[string]bool{}
+	for _, p := range strings.Split(*pkgs, ",") {
+		want[p] = true
+	}
+	sk := map[string]bool{}
+	for _, k := range strings.Split(*kinds, ",") {
+		sk[k] = true
+	}
+	dir, _ := os.MkdirTemp("", "govcsweep")
+	defer os.RemoveAll(dir)
+	var names []string
+	for _, fn := range eng.allFuncs {
+		if fn.Blocks == nil || fn.Pkg == nil || !want[fn.Pkg.Pkg.Path()] || fn.Synthetic != "" {
+			continue
+		}
+		if eng.contracts[fn.String()] != nil {
+			continue
+		}
+		names = append(names, fn.String())
+	}
+	sort.Strings(names)
+	var all []*Obligation
+	for _, n := range names {
+		eng.contracts[n] = &Contract{Func: n, Safe: true, SafeKinds: sk, InlineBlocks: 2, InlineDepth: 1, LoopInv: map[int][]*Clause{}, LoopDecr: map[int]*Clause{}, Witness: map[string]string{}}
+		r := func() (r *FuncResult) {
+			defer func() {
+				if x := recover(); x != nil {
+					r = &FuncResult{Func: n, Unsupported: fmt.Sprint("engine error: ", x)}
+				}
+			}()
+			return eng.verifyFunc(n, false)
+		}()
+		if r.Unsupported != "" {
+			fmt.Printf("UNSUPPORTED %-70s %s\n", n, r.Unsupported)
+			continue
+		}
+		for _, ob := range r.Obs {
+			if ob.Claimed && !ob.Cover {
+				all = append(all, ob)
+			}
+		}
+	}
+	solveAll(all, SolveOpts{TimeoutMs: 5000, Dir: dir})
+	bad := 0
+	for _, ob := range all {
+		if ob.Status != "unsat" {
+			bad++
+			fmt.Printf("OPEN %-8s %-90s %s  %s\n", ob.Status, ob.Name, ob.Pos, ob.Desc)
+		}
+	}
+	fmt.Printf("sweep: %d functions without contract, %d obligations, %d open\n", len(names), len(all), bad)
+}
